@@ -192,15 +192,27 @@ AnswerView(k, i) ==
 MatcherView(k, i) == AnswerView(k, i)
 Writes(k) == k \in {"mu8", "mvec", "mlvec"}
 After(k, i) == IF k = "mu8" THEN ToString(i + 100) ELSE "[" \o ToString(i) \o "," \o ToString(i + 100) \o "]"
-RetKinds == {"u32", "string", "opt", "ref"}
-RetView(r) == CASE r = "u32" -> "4242" [] r = "string" -> "ret" [] r = "opt" -> "Some(7)" [] OTHER -> "&77"
+\* "ref" &u32 borrowed from self (elided) | "sref" the same with the lifetime spelled out: fn f<'s>(&'s self, ..) -> &'s u32
+\* "optref" Option<&u32> | "static" &'static str | "assoc" Self::Out (type Out = u32 given in the attribute)
+\* "pref" the first parameter, a `&'a str`, handed back: fn f<'a>(.., a1: &'a str, ..) -> &'a str
+RetKinds == {"u32", "string", "opt", "ref", "sref", "optref", "static", "assoc", "pref"}
+SelfBorrowing == {"ref", "sref", "optref"}
+RetView(r) == CASE r = "u32" -> "4242" [] r = "string" -> "ret" [] r = "opt" -> "Some(7)" [] r = "optref" -> "Some(&77)"
+                [] r = "static" -> "&lit" [] r = "assoc" -> "4242" [] r = "pref" -> "&s1" [] OTHER -> "&77"
 AsyncKinds == {"none", "asyncfn", "implfuture"}
 ApiForms == {"module", "flattened", "hidden"}
 \* what the attribute and Rust accept (measured, DESIGN Appendix G)
 ValidShape(sh) ==
-  /\ (sh.ret = "ref" => sh.recv \in {"ref", "mut", "pin"} /\ sh.async = "none")
+  /\ (sh.ret \in SelfBorrowing => sh.recv \in {"ref", "mut", "pin"} /\ sh.async = "none")
+  /\ (sh.ret = "sref" => sh.recv = "ref")
+  /\ (sh.ret \in {"static", "assoc", "pref"} => sh.async = "none")
+  /\ (sh.ret \in {"assoc", "pref"} => sh.api # "hidden")
+  \* (measured: the generated impl of a parameter-borrowing return does not pass borrowck when another parameter is a
+  \*  reference of any kind or the receiver is `&mut self` / `Pin<&mut Self>`: such traits are rejected at compile time)
+  /\ (sh.ret = "pref" => Len(sh.params) >= 1 /\ sh.params[1] = "str" /\ sh.recv \notin {"mut", "pin"}
+                          /\ \A i \in 2..Len(sh.params) : sh.params[i] \in {"u8", "string", "vec", "pair", "gen"})
   /\ (sh.async = "implfuture" => sh.recv \notin {"mut", "pin"})
-  /\ (sh.api = "hidden" => sh.recv = "ref" /\ sh.ret # "ref" /\ \A i \in 1..Len(sh.params) : sh.params[i] \notin {"gen", "into"})
+  /\ (sh.api = "hidden" => sh.recv = "ref" /\ sh.ret \notin SelfBorrowing /\ \A i \in 1..Len(sh.params) : sh.params[i] \notin {"gen", "into"})
   /\ (sh.async # "none" => \A i \in 1..Len(sh.params) : sh.params[i] \notin {"into"})
   /\ Cardinality({ i \in 1..Len(sh.params) : sh.params[i] \in {"gen", "into"} }) <= 1
   /\ ((\E i \in 1..Len(sh.params) : sh.params[i] = "mlvec") => sh.async = "none" /\ sh.api # "hidden")
